@@ -4,7 +4,7 @@
 //! increases compile times. As we don't have complex AST manipulation, usually requiring only
 //! understanding where syntax item begins and ends, simpler manual parsing is implemented.
 
-use proc_macro2::{Spacing, TokenStream};
+use proc_macro2::{Delimiter, Spacing, TokenStream, TokenTree};
 use quote::ToTokens;
 use syn::{
     buffer::Cursor,
@@ -59,6 +59,10 @@ impl Parse for Expr {
                             &mut balanced_pair(punct('<'), punct('>')),
                             &mut path_sep,
                         ]),
+                        &mut seq([
+                            &mut balanced_pair(punct('|'), punct('|')),
+                            &mut closure_return,
+                        ]),
                         &mut balanced_pair(punct('|'), punct('|')),
                         &mut token_tree,
                     ]),
@@ -97,6 +101,29 @@ pub fn path_sep(c: Cursor<'_>) -> ParsingResult<'_> {
         &mut punct_with_spacing(':', Spacing::Joint),
         &mut punct(':'),
     ])(c)
+}
+
+/// Tries to parse an explicit return type of a closure (`-> Type`) along with the closure's body,
+/// which is always a block in this case. Commas of the type's generic arguments don't end the
+/// expression.
+pub fn closure_return(c: Cursor<'_>) -> ParsingResult<'_> {
+    let (mut out, mut c) = seq([
+        &mut punct_with_spacing('-', Spacing::Joint),
+        &mut punct('>'),
+    ])(c)?;
+
+    loop {
+        let (tt, cursor) = c.token_tree()?;
+        let is_body = matches!(
+            &tt,
+            TokenTree::Group(g) if g.delimiter() == Delimiter::Brace,
+        );
+        out.extend(tt.into_token_stream());
+        c = cursor;
+        if is_body {
+            return Some((out, c));
+        }
+    }
 }
 
 /// Tries to parse a [`punct`] with [`Spacing`].
